@@ -55,6 +55,10 @@ fn compare(w: &World, o: &Outcome, exp_out: &Value, exp_st: &Value) -> Option<(S
         return Some(("malformed".into(), "malformed".into(), json!([]), json!(w.malformed)));
     }
     let got = w.proj();
+    // the public deadline Connection::needs_tick() of both endpoints
+    if canon(&got["nt"]) != canon(&exp_out["nt"]) {
+        return Some(("deadline".into(), "nt".into(), exp_out["nt"].clone(), got["nt"].clone()));
+    }
     for f in ["del", "ready", "answered", "net", "sub", "snv", "scl"] {
         if canon(&got[f]) != canon(&exp_st[f]) {
             return Some(("observable".into(), f.into(), exp_st[f].clone(), got[f].clone()));
